@@ -107,7 +107,7 @@ EXTRA = {
  "C12": " Histories incl. the caller overwriting the lists it lent to the object (depth 3). Close root pairs; spacings 0.001..36 525; minmax in the copy histories.",
  "C13": " Isolated spot queries over the whole range (240 / 1 200 per variant); one Epoch moved by set() through all ordered pairs (triples) of 7 dates per variant. every_event: 394 916 queries one period apart - every event of all 56 variants over the whole range. calendar_seams: every variant asked 1e-6 d before and after 0 h of every 1 January, 1 March of leap years and the 1st of every month of every 12th year (thorough every year): never backwards.",
  "C14": " Rise/set decision on a 0.25 (0.05) degree declination grid through both 'never crosses' thresholds x 10 latitudes x 6 standard altitudes. Whole-minute seams of the equation of time located by bisection (+-1e-9..1e-4 d); transit / rise / set within seconds of 0 h = 24 h; returned Epochs moved by the caller. Bodies transiting at 0 h / 24 h of the day (both hour-angle wrap branches).",
- "C15": " Every year end -2000..3998 x 10 finder/target pairs x 10 query offsets from 1.5 d down to 1e-6 d around 1 January 0h; one Epoch moved by set() between queries. every_event: 777 472 queries one period apart - every lunar event of the range.",
+ "C15": " Every year end -2000..3998 x 10 finder/target pairs x 10 query offsets from 1.5 d down to 1e-6 d around 1 January 0h; one Epoch moved by set() between queries. every_event: 777 472 queries one period apart - every lunar event of the range. month_seams: every finder 1e-6 d before and after 0 h of the 1st of every month of every year.",
  "C16": " First instant and 1e-8 day before the end of every civil day through Epoch(jde).dow(); Epoch object histories (shared with C02).",
  "C19": " Thorough: independent TLA+ model of the tabular Islamic calendar (models/Hijri.tla, 30-year cycle table) enumerated by TLC over six 40-year windows, all 85 049 dumped states replayed; Gauss's Easter algorithm as a third formulation (models/Easter.tla), all 14 713 years enumerated by TLC and replayed; the traditional molad / dehiyyot rules (models/Pesach.tla), all 3 000 years enumerated and replayed.",
  "C17": " Input forms incl. re-used objects, a copy whose source is re-loaded, and lists overwritten by the caller, for linear, quadratic and general fits. Scale-disparate bases (exp x, x, 1 on 0..20), +-a degenerate tables, ordinates without spread, skewed abscissae; general fits on degenerate data.",
